@@ -6,6 +6,10 @@ CHECKS = {
   technique='property-based testing (Hypothesis) against a reference interpolation model + bracket/node validity predicates',
   text='Generated tables and (T,P) points aimed at all nine in/out-of-grid regions, nodes and ulp neighbours are evaluated through Opacity.opacity and compared with an independent reference interpolation (clamped, zero below both minima) and with min/max of the bracketing nodes; exploration level: held on every generated case, no absence claim.',
   note='In-memory InterpolatingOpacity/KTable subclasses stand in for file-backed tables; float tolerance 1e-13 x largest neighbouring node + 1e-11 relative; reference follows the kernel docstring for exp mode.'),
+ 'C05': dict(
+  technique='property-based testing (Hypothesis) against an explicit-loop overlap-weighted-mean reference + metamorphic relations (constant, bounds, linearity, permutation)',
+  text='Generated native grids (smooth with implied widths, explicit non-overlapping bins with gaps), target grids with overlaps/gaps/out-of-range bins, 1-D/2-D spectra, errors and permutations of native and target points; FluxBinner compared bin by bin with a loop reference, SimpleBinner with the plain mean between mid-point edges, NativeBinner with identity; exploration level.',
+  note='Native bin = centre +/- width/2 (mid-point widths when none are passed); errors only with 1-D spectra (no caller passes errors with 2-D optical depths); rtol 1e-10.'),
 }
 
 NOT_APPLICABLE = {}
